@@ -223,6 +223,32 @@ def conc_bytes(t):
     return None
 
 
+_HASQ = {}
+
+
+def has_quantifier(f):
+    """does the formula contain a quantifier (cached by term id; the terms are kept alive by the path conditions)"""
+    key = f.get_id()
+    hit = _HASQ.get(key)
+    if hit is not None and hit[1] is f:
+        return hit[0]
+    r = False
+    seen = set()
+    stack = [f]
+    while stack:
+        t = stack.pop()
+        i = t.get_id()
+        if i in seen:
+            continue
+        seen.add(i)
+        if z3.is_quantifier(t):
+            r = True
+            break
+        stack.extend(t.children())
+    _HASQ[key] = (r, f)
+    return r
+
+
 def zmin(a, b):
     return z3.If(a <= b, a, b)
 
@@ -399,12 +425,16 @@ class Path:
                 return False
             if r == z3.sat and not self.explorer.precise_feasibility:
                 return True
+        t0 = _t.time()
+        quantified = [p for p in self.pc if has_quantifier(p)]
         s = z3.Solver()
         s.set('timeout', self.explorer.feas_timeout_ms)
         for p in self.pc:
-            s.add(p)
+            # quantified hypotheses make satisfiable queries run into the time limit (no model is found): inline
+            # queries are asked without them (a weakening: `unsat` is still conclusive, see _abstract)
+            if not quantified or not has_quantifier(p):
+                s.add(p)
         s.add(c)
-        t0 = _t.time()
         r = s.check()
         dt = _t.time() - t0
         if DEBUG and dt > 0.5:
@@ -416,7 +446,7 @@ class Path:
         self.pc.append(f)
         self.def_ids.add(id(f))
 
-    def proves(self, c):
+    def proves(self, c, timeout=1000):
         """does the path condition entail c (decided inline; False on unknown)"""
         c = z3.simplify(c)
         if z3.is_true(c):
@@ -436,9 +466,10 @@ class Path:
             r = True
         else:
             s = z3.Solver()
-            s.set('timeout', 1000)
+            s.set('timeout', timeout)
             for p in self.pc:
-                s.add(p)
+                if not has_quantifier(p):  # as in feasible(): entailment from fewer hypotheses is still entailment
+                    s.add(p)
             s.add(z3.Not(c))
             r = s.check() == z3.unsat
         cache[key] = r
@@ -562,6 +593,8 @@ class Path:
         if ref.old is not None:
             if isinstance(v, Ref) and v.old is None:
                 return Ref(v.oid, ref.old)
+            if isinstance(v, ElemRef) and v.mref.old is None:
+                return ElemRef(Ref(v.mref.oid, ref.old), v.key)
             if isinstance(v, tuple):
                 return tuple(self.wrap(x, ref) for x in v)
         return v
@@ -1009,6 +1042,15 @@ class Path:
             n = 0
             while True:
                 c = self.truth(self.eval(s.test))
+                if not isinstance(c, bool) and not isinstance(c, Unknown):
+                    # a test that the path condition decides is as good as a concrete one (complete unrolling)
+                    ct = zbool(c)
+                    # (generous budget: an undecided test makes the whole entry undecided)
+                    p_true, p_false = self.proves(ct, 6000), self.proves(z3.Not(ct), 6000)
+                    if p_true and p_false:
+                        raise Infeasible()  # contradictory path condition (everything is entailed): not a path
+                    if p_true or p_false:
+                        c = p_true
                 if not isinstance(c, bool):
                     raise Unsupported(f'loop without invariant at {self.cur_loc}')
                 if not c:
